@@ -11,6 +11,7 @@ import Lattigo.Model.ParamsGen
     eval t= q= slots= cheb= lazy= lvl= scale= tscale= x= map=<a,b|c,d>|- (P <coeffs>)+
                                       → tr=<trace> st=<status> [lvl= scale= vals= ps=]
     eval-ckks-lazy …                  same as eval (ckks, Lazy = true): needs the ckks MulThenAdd fix C06-6/7
+    genpower t= q= slots= cheb= lvl= scale= x= n= lazy=  → tr= st= pb=<k:level:degree,…> [val=]  (GenPower on a fresh basis)
     normiters <num> <den>             → steps of inverse.IntervalNormalization for log2max = num/den
     chebeval <a> <b> <x> <coeffs>     → bignum.Polynomial.Evaluate, Chebyshev basis on [a, b] (integral change of basis)
     cob slots= map= iv=<a:b|a:b>      → PolynomialVector.ChangeOfBasis: per-slot 8·scalar ; 8·constant
@@ -101,6 +102,28 @@ def evalLine (toks : List String) : Option String := do
       let ps := if odd && even then ps else o.val
       some s!"tr={trs} st={st} lvl={o.level} scale={o.scale} vals={showIVec o.val} ps={showIVec ps}"
 
+/-- `genpower t= q= slots= cheb= lvl= scale= x= n= lazy=`: PowerBasis.GenPower(n, lazy) on a fresh basis →
+    `tr= st= pb=<k:level:degree,…> [val=<slot values of X^n>]` -/
+def genLine (toks : List String) : Option String := do
+  let t ← (kv? toks "t") >>= parseNat?
+  let q ← (kv? toks "q") >>= parseVec?
+  let slots ← (kv? toks "slots") >>= parseNat?
+  let cheb ← (kv? toks "cheb") >>= parseNat?
+  let lazy ← (kv? toks "lazy") >>= parseNat?
+  let lvl ← (kv? toks "lvl") >>= parseNat?
+  let scale ← (kv? toks "scale") >>= parseNat?
+  let n ← (kv? toks "n") >>= parseNat?
+  let x ← (kv? toks "x") >>= parseIVec?
+  let env : Env := { t := t, q := q, cheb := cheb == 1, slots := slots }
+  let xin := if t = 0 then List.replicate slots 0 else x
+  let (tr, st, pb) := runGen env n (lazy == 1) lvl scale xin
+  let trs := if tr.isEmpty then "-" else ";".intercalate tr
+  let pbs := ",".intercalate (pb.map fun e => s!"{e.1}:{e.2.level}:{e.2.deg}")
+  let val := match pb.find? (·.1 == n) with
+    | some e => if t = 0 || st != "ok" then "" else s!" val={showIVec e.2.val}"
+    | none => ""
+  some s!"tr={trs} st={st} pb={pbs}{val}"
+
 def cobLine (toks : List String) : Option String := do
   let slots ← (kv? toks "slots") >>= parseNat?
   let m ← (kv? toks "map") >>= parseMap
@@ -149,6 +172,7 @@ def handle (toks : List String) : String :=
     | some a, some b, some x, some cs => toString (chebEval a b x cs)
     | _, _, _, _ => badOp
   | "cob" :: rest => (cobLine rest).getD badOp
+  | "genpower" :: rest => (genLine rest).getD badOp
   | "eval" :: rest => (evalLine rest).getD badOp
   | "eval-ckks-lazy" :: rest => (evalLine rest).getD badOp   -- depends on the ckks MulThenAdd fix (C06-6/7)
   | _ => badOp
